@@ -852,7 +852,7 @@ func initKnownFunctions() map[string]*functionRewrite {
 			"iff":       {write: writeIfFunction, needsParens: true},
 			"isnotnull": {write: writeIsNotNullFunction, needsParens: true},
 			"isnull":    {write: writeIsNullFunction, needsParens: true},
-			"not":       {write: writeNotFunction},
+			"not":       {write: writeNotFunction, needsParens: true},
 			"now":       {write: writeNowFunction},
 			"strcat":    {write: writeStrcatFunction, needsParens: true},
 			"tolower":   {write: writeToLowerFunction, needsParens: true},
